@@ -518,9 +518,17 @@ class OutcomeCheck:
                     f"correspondence L vs implementation ({name} family): program `{m.get('prog', '?')}` iteration {m.get('iteration')}: impl `{str(m.get('impl'))[:160]}` model `{str(m.get('model'))[:160]}`")
                 # search: programs whose behaviour the model does not reproduce
                 lo, up = oracle_modes(self.ref_mode)
-                rk = driver_keys(lo, fam.file)
-                wk = driver_keys(up, fam.file) if up != lo else rk
-                mk_ = driver_keys("keys", fam.file)
+                # only the programs that disagree are looked up (a file with the same line numbering)
+                idx = {m.get("index") for m in mm if m.get("index") is not None}
+                sf = os.path.join(ctx.dir, name + ".search.txt")
+                open(sf, "w").write("\n".join(l if i in idx else "" for i, l in enumerate(fam.lines)) + "\n")
+                try:
+                    rk = driver_keys(lo, sf)
+                    wk = driver_keys(up, sf) if up != lo else rk
+                    mk_ = driver_keys("keys", sf)
+                except RuntimeError as ex:
+                    res["broken"].append("the search for a failing input could not evaluate the specification: " + str(ex)[:200])
+                    mm = []
                 for m in mm:
                     i = m.get("index")
                     if i is None or i not in fam.parsed:
